@@ -248,7 +248,7 @@ fn num(s: &str) -> Option<u64> {
     if s.is_empty() || !s.bytes().all(|b| b.is_ascii_digit()) {
         return None;
     }
-    s.parse().ok()
+    s.parse().ok().filter(|v: &u64| *v < (1u64 << 32))
 }
 fn optnum(s: &str) -> Option<Option<u64>> {
     if s == "-" {
@@ -412,7 +412,7 @@ pub fn check_program(ops: &[String]) -> Option<()> {
                 c.opt(w[9], Kind::Str)?;
                 optnum(w[10])?;
                 optnum(w[11])?;
-                num(w[12])?;
+                (num(w[12])? < 65536).then_some(())?;
                 c.subcat(w[13])?;
                 num(w[14])?;
                 c.def(w[1], Kind::Frame)?;
